@@ -165,6 +165,19 @@ pub fn binop_to_op(op: BinOp) -> Operator {
     }
 }
 
+thread_local! {
+    /// when set, `expr_to_x` names columns `#<index in schema>` instead of by their unqualified name
+    pub static INDEX_NAMES: std::cell::Cell<bool> = const { std::cell::Cell::new(false) };
+}
+
+/// expr_to_x with positional column names (used by the plan encoder)
+pub fn expr_to_x_idx(e: &Expr, schema: &DFSchema) -> R<X> {
+    INDEX_NAMES.with(|c| c.set(true));
+    let r = expr_to_x(e, schema);
+    INDEX_NAMES.with(|c| c.set(false));
+    r
+}
+
 pub fn expr_to_x(e: &Expr, schema: &DFSchema) -> R<X> {
     use datafusion::logical_expr::ExprSchemable;
     Ok(match e {
@@ -174,7 +187,10 @@ pub fn expr_to_x(e: &Expr, schema: &DFSchema) -> R<X> {
                 Ok(i) => schema.field(i).clone(),
                 Err(e) => return unsup(format!("column {c}: {e}")),
             };
-            X::Col { name: c.name.clone(), ty: dt_to_ty(f.data_type())?, nullable: f.is_nullable() }
+            // plan mode: columns are named by their position in the operator's input schema (two tables may
+            // both have a column `a`); outer references are not resolved here
+            let name = if INDEX_NAMES.with(|c| c.get()) { format!("#{}", schema.index_of_column(c).unwrap_or(usize::MAX)) } else { c.name.clone() };
+            X::Col { name, ty: dt_to_ty(f.data_type())?, nullable: f.is_nullable() }
         }
         Expr::Literal(sv, _) => {
             let (ty, v) = scalar_to_lit(sv)?;
